@@ -14,6 +14,9 @@ use std::sync::Arc;
 #[derive(Serialize, Deserialize, Clone, Debug)]
 pub enum Case {
     Sign { d: String, id: Option<String>, msg_len: usize, msg_class: String, k: String, tag: String },
+    /// key objects whose public point is held in the Jacobian representation with Z = lambda (the `point` field is public
+    /// and the library's own constructors produce both affine and non-affine key objects)
+    KeyRepr { d: String, k: String, lambda: String, id: Option<String>, msg_len: usize },
     IdTooLong { len: usize },
     Corpus { idx: usize },
 }
@@ -134,6 +137,54 @@ pub fn eval(ctx: &Ctx, case: &Case) {
                 other => ctx.violation("Sm2PublicKey::verify", &format!("reference-signature-rejected/{}", tag), format!("d={} id={:?} mlen={} -> {}", hexbig(&d), id, msg_len, gdbg(&other)), cj()),
             }
         }
+        Case::KeyRepr { d, k, lambda, id, msg_len } => {
+            let (d, k) = (hb(d), hb(k));
+            let p = &sm2::params().p;
+            let lam = match lambda.as_str() {
+                "1" => BigUint::from(1u32),
+                "2" => BigUint::from(2u32),
+                "p-1" => p - 1u32,
+                _ => SplitMix::new(ctx.seed, "c03lambda").nonzero_below(p),
+            };
+            let msg = content("seed", *msg_len, ctx.seed);
+            let idv: Option<String> = id.as_ref().map(|s| id_string(s, ctx.seed));
+            let id_bytes: Vec<u8> = idv.as_ref().map(|s| s.as_bytes().to_vec()).unwrap_or_else(|| sm2::DEFAULT_ID.to_vec());
+            let id_static: Option<&'static str> = idv.as_ref().map(|s| static_id(s));
+            let pk_ref = sm2::g_mul(&d);
+            let e = sm2::digest_e(&id_bytes, &pk_ref, &msg);
+            let pk = gm_sm2::key::Sm2PublicKey { point: lib_point(&pk_ref, &lam) };
+            let sk = gm_sm2::key::Sm2PrivateKey { d: scalar(&d), public_key: pk.clone() };
+            let tag = format!("key-object-Z={}", lambda);
+            let Some((r0, s0)) = sm2::sign_with_k(&d, &e, &k) else { return };
+            let mut want = cand(&r0).to_vec();
+            want.extend_from_slice(&cand(&s0));
+            ctx.trace();
+            let (r, _) = with_rng(vec![cand(&k)], || sk.sign(id_static, &msg));
+            ctx.call();
+            match r {
+                Guard::Done(Ok(sig)) if sig == want => {}
+                other => {
+                    ctx.violation("Sm2PrivateKey::sign", &format!("value-mismatch/{}", tag), format!("d={} k={} -> {} want {}", hexbig(&d), hexbig(&k), gdbg(&other.map(|r| r.map(hex::encode))), hex::encode(&want)), cj());
+                    return;
+                }
+            }
+            ctx.call();
+            match guard(|| pk.verify(id_static, &msg, &want)) {
+                Guard::Done(Ok(())) => {}
+                other => {
+                    ctx.violation("Sm2PublicKey::verify", &format!("reference-signature-rejected/{}", tag), format!("d={} -> {}", hexbig(&d), gdbg(&other)), cj());
+                    return;
+                }
+            }
+            // and a signature over another message is still refused under that key object
+            let mut other_msg = msg.clone();
+            other_msg.push(0);
+            ctx.call();
+            match guard(|| pk.verify(id_static, &other_msg, &want)) {
+                Guard::Done(Err(_)) => ctx.outcome(&format!("ok/{}", tag)),
+                other => ctx.violation("Sm2PublicKey::verify", &format!("accepted-for-other-message/{}", tag), gdbg(&other), cj()),
+            }
+        }
         Case::IdTooLong { len } => {
             let id: String = "x".repeat(*len);
             let ids = static_id(&id);
@@ -200,7 +251,7 @@ pub fn replay(ctx: &Arc<Ctx>, v: &Value) {
 pub fn run(ctx: &Arc<Ctx>) {
     refmodels::selftest::run(&["sm3", "sm2"]).unwrap_or_else(|e| ctx.machinery_error(format!("reference self-test failed: {}", e)));
     let n = sm2::params().n.clone();
-    ctx.set_rule("private keys d x nonces k (via the RNG seam) over {1,2,3,n-2,n-3,2^255,2^128-1,limb patterns,Annex,seeded} with two (ID,message) pairs, plus IDs {default, \"\", 1, 16, 8191 bytes, seeded} x message lengths {0,1,31,32,33,55,56,64,119,4096} x {zero, seeded} with two (d,k) pairs; ID of 8192 bytes must be refused; GM/T 0003.5 Annex A exact; OpenSSL signature corpus. Per case: 64 bytes, r,s in [1,n-1], exact equality with the reference signature for the nonce the seam reports as accepted, reference verifier accepts, library verifier accepts its own and a reference-made signature.");
+    ctx.set_rule("private keys d x nonces k (via the RNG seam) over {1,2,3,n-2,n-3,2^255,2^128-1,limb patterns,Annex,seeded} with two (ID,message) pairs, plus IDs {default, \"\", 1, 16, 8191 bytes, seeded} x message lengths {0,1,31,32,33,55,56,64,119,4096} x {zero, seeded} with two (d,k) pairs; key objects whose public point is affine or Jacobian with Z in {2, p-1, seeded} sign and verify identically; ID of 8192 bytes must be refused; GM/T 0003.5 Annex A exact; OpenSSL signature corpus. Per case: 64 bytes, r,s in [1,n-1], exact equality with the reference signature for the nonce the seam reports as accepted, reference verifier accepts, library verifier accepts its own and a reference-made signature.");
     // d in [1, n-2]: top element n-2; k in [1, n-1]: top element n-1
     let ds = scalar_alphabet(&n, ctx.seed, "c03d", 2);
     let ks = scalar_alphabet(&n, ctx.seed, "c03k", 1);
@@ -249,6 +300,13 @@ pub fn run(ctx: &Arc<Ctx>) {
             let m = e["msg"].as_str().unwrap_or("").to_string();
             let kind = e["kind"].as_str().unwrap_or("small").to_string();
             cases.push(Case::Sign { d: ANNEX_D.into(), id: None, msg_len: m.len() / 2, msg_class: format!("hex:{}", m), k: ANNEX_K.into(), tag: format!("pre-searched/{}", kind) });
+        }
+    }
+    for (d, k) in &dks {
+        for lambda in ["1", "2", "p-1", "seed"] {
+            for id in [None, Some("len:16".to_string()), Some("".to_string())] {
+                cases.push(Case::KeyRepr { d: hexbig(d), k: hexbig(k), lambda: lambda.into(), id, msg_len: 33 });
+            }
         }
     }
     for len in [8191usize, 8192, 8193, 20000] {
